@@ -1,11 +1,11 @@
 package storekit
 
 import (
-	"time"
 	"context"
 	"errors"
 	"iter"
 	"sync"
+	"time"
 
 	eventbus "github.com/jilio/ebu"
 )
@@ -40,10 +40,10 @@ type Base struct {
 	// SubInner, if set, receives SaveOffset/LoadOffset (a separate
 	// subscription store sharing this wrapper's counters and crash state).
 	SubInner eventbus.SubscriptionStore
-	mu    sync.Mutex
-	hook  Hook
-	count map[string]int
-	seq   int
+	mu       sync.Mutex
+	hook     Hook
+	count    map[string]int
+	seq      int
 	// Log of completed operations (for oracles): op names in order.
 	Ops []string
 	// Saves records every completed SaveOffset as (id, offset).
